@@ -4,7 +4,7 @@ Two parts, of very different strength:
   1. PROVED (Lean, kernel-checked): totality of the parsers modelled for C03 (apk, gradle.lockfile, Gemfile.lock,
      dpkg stanza subset, requirements.txt core, package-lock `dependencies` recursion) and — hooked in by the
      coordinator through ENGINE_THEOREMS — engine-level confinement (an error in one (extractor, file) leaves every
-     other result unchanged; a scan panics iff some reached Extract panics).
+     other result unchanged; a scan panics only if some reached Extract panics — one direction, C02_panic_only_from_extractor).
   2. SEARCH SUPPORT, NOT PROOF: harness/cmd/c02gen runs the real Extract of every offline built-in filesystem
      extractor on every fixture of its testdata directory and on seeded mutations, under recover + watchdog + memory
      bound. A crash it finds is a failing input; finding none proves nothing.
@@ -41,7 +41,7 @@ META = {
             'CONFIGURED LIMITS (c02gen -limits): java/archive is also run with SMALL MaxOpenedBytes / MaxZipDepth against compression bombs shaped to each code path (one big inner archive, '
             'many siblings that parse, siblings that FAIL after being read, nested chains, forged uncompressed-size headers) and must return ErrExtractorMemoryLimitExceeded / the depth error exactly when a '
             'reference accounting of the documented budget says so, with cumulative allocation <= 16 x limit + 8 MiB; every extractor with MaxFileSizeBytes must refuse a file one byte above the limit. '
-            'ENGINE HALF: the theorems C02_confined / C02_panic_only_from_extractor are about the walk-engine model; its tie to scalibr.Scan is the walkgen/drv_walk correspondence stream with erroring and '
+            'ENGINE HALF: the theorems C02_confined_benign / C02_confined_two_benign / C02_panic_only_from_extractor are about the walk-engine model; its tie to scalibr.Scan is the walkgen/drv_walk correspondence stream with erroring and '
             'PANICKING table extractors, run here in small (coverage.engine_half) and in full by C01 / C09; the replay of every Extract result through the real filesystem.Run must make at least one Extract call (ec=0 is a harness fault).',
     'note': 'The fuzz loop is SEARCH SUPPORT, NOT PROOF (evidence: coverage.unproved_support): absence of a finding is no guarantee. '
             '"Bounded time/memory" is a watchdog observation, never a theorem. The proved part is totality of the modelled parsers (C03 models) '
@@ -51,7 +51,7 @@ META = {
 }
 
 # ---------------------------------------------------------------------------------------------------------------
-# HOOK for the coordinator: engine-level confinement theorems (C02_confined_benign / C02_no_recover) and the modules that
+# HOOK for the coordinator: engine-level confinement theorems (C02_confined_benign / C02_confined_two_benign / C02_panic_only_from_extractor) and the modules that
 # have to be imported for the axiom audit to see them. Both lists are appended below; leave empty until they exist.
 ENGINE_THEOREMS = ['Scalibr.Walk.C02_confined_benign', 'Scalibr.Walk.C02_confined_two_benign', 'Scalibr.Walk.C02_panic_only_from_extractor']
 ENGINE_IMPORTS = ['Scalibr.Properties.C02Engine']
@@ -263,7 +263,7 @@ ENGINE_N = {'quick': 2000, 'thorough': 30000}
 
 def engine_stream(ctx):
     """The ENGINE half of C02 ("a failing or panicking extractor is confined: the scan completes and the other extractors are unaffected"): the theorems
-    C02_confined / C02_panic_only_from_extractor are about the walk-engine model; this ties that model to scalibr.Scan on configurations whose table-driven
+    C02_confined_benign / C02_panic_only_from_extractor are about the walk-engine model; this ties that model to scalibr.Scan on configurations whose table-driven
     extractors return packages, errors and PANICS (walkgen -mode mixed, the stream of C01 / C09): implementation and model must agree on scan error, visits,
     Extract calls, packages and per-extractor statuses (COMPARE), the scan may panic only if an extractor does, and in benign configurations the calls are the owed ones."""
     before = len(ctx.mismatches)
@@ -285,7 +285,7 @@ def engine_stream(ctx):
     W.run_stream(ctx, 'mixed', ENGINE_N[ctx.tier], oracle, classify=cls)
     ctx.extra['engine_half'] = dict(seen, tie='walkgen -mode mixed + drv_walk: implementation = model on %s' % ', '.join(W.COMPARE),
                                     mismatches=len(ctx.mismatches) - before,
-                                    note='the same stream (larger) is the correspondence evidence of C01 / C09, whose theorems C02_confined and C02_panic_only_from_extractor build on')
+                                    note='the same stream (larger) is the correspondence evidence of C01 / C09, whose theorems C02_confined_benign and C02_panic_only_from_extractor build on')
 
 
 def limits_stream(ctx, replay_lines=None):
